@@ -2,6 +2,18 @@ module verif
 
 go 1.25.6
 
-require github.com/DataDog/datadog-traceroute v0.0.0
+require (
+	github.com/DataDog/datadog-traceroute v0.0.0
+	golang.org/x/net v0.49.0
+)
+
+require (
+	github.com/golang/mock v1.6.0 // indirect
+	github.com/google/gopacket v1.1.19 // indirect
+	github.com/google/uuid v1.6.0 // indirect
+	github.com/patrickmn/go-cache v2.1.0+incompatible // indirect
+	golang.org/x/sync v0.19.0 // indirect
+	golang.org/x/sys v0.40.0 // indirect
+)
 
 replace github.com/DataDog/datadog-traceroute => /repo
